@@ -25,6 +25,7 @@ CHECK = {
       G('addr4', 'base', 'naddr=4'),
       G('addr5-d8', 'base', 'naddr=5', 'depth=8'),
       G('addr3-asan', 'asan', 'naddr=3'),
+      G('addr4-B', 'base', 'naddr=4', 'residues=B'), G('addr3-temps2', 'base', 'naddr=3', 'temps=2'),
       G('ladder', 'base', 'mode=ladder', 'ladder_n=250'),
       G('ladder-asan', 'asan', 'mode=ladder', 'ladder_n=120'),
     ],
@@ -32,6 +33,7 @@ CHECK = {
       G('addr5', 'base', 'naddr=5'),
       G('addr6', 'base', 'naddr=6', 'deadline=840'),
       G('addr4-asan', 'asan', 'naddr=4'),
+      G('addr5-B', 'base', 'naddr=5', 'residues=B'), G('addr4-temps2', 'base', 'naddr=4', 'temps=2'),
       G('ladder', 'base', 'mode=ladder', 'ladder_n=300'),
       G('ladder-asan', 'asan', 'mode=ladder', 'ladder_n=250'),
     ],
